@@ -130,6 +130,10 @@ func checkC08(P *Prog, r *Result) {
 		r.Instances[o.Rule]++
 	}
 	P.checkReleaseInto(r, "C08/single-owner-release")
+	// an issue a callback returns wrapped inside an ordinary error stays the callback's: only an error that *is* a
+	// *ZogIssue is adopted (and written: Dtype, Message; pooled by Collect). errors.As digs a shared sentinel issue out of
+	// fmt.Errorf("%w") and every goroutine then writes it (C12's rule on IssueFromUnknownError)
+	shareRule(P, r, checkC12, "C12/unknown-error-shape", nil, "C08/wrapped-issue-not-adopted", 1)
 	P.checkReleaseMultiplicity(r, "C08/single-owner-multiplicity")
 
 	// informational: globals read by execution code
